@@ -1794,9 +1794,11 @@ impl SubRule {
                                             if let Some(var) = self.variables.borrow_mut().get(&num.value.parse().unwrap()) {
                                                 match var {
                                                     VarKind::Segment(seg, _) => {
+                                                        // as for a variable outside a set: the written segment is as long as the matched one if it is the same segment, else one copy
+                                                        let own_len = if res_word.syllables[sp.syll_index].segments[sp.seg_index] == *seg { res_word.seg_length_at(sp) } else { 1 };
                                                         res_word.syllables[sp.syll_index].segments[sp.seg_index] = *seg;
                                                         if let Some(m) = mods {
-                                                            let lc = res_word.apply_seg_mods(&self.alphas, m, sp, num.position)?;
+                                                            let lc = res_word.syllables[sp.syll_index].apply_seg_mods_to(&self.alphas, m, sp.seg_index, own_len, num.position)?;
                                                             total_len_change[sp.syll_index] += lc;
                                                             if lc > 0 {
                                                                 last_pos.seg_index += lc.unsigned_abs() as usize;
@@ -2069,7 +2071,8 @@ impl SubRule {
                                         pos = SegPos::new(res_word.syllables.len() - 1, res_word.syllables.last().unwrap().segments.len() - 1);
                                     }
                                     if let Some(m) = mods {
-                                        let lc = res_word.apply_seg_mods(&self.alphas, m, pos, num.position)?;
+                                        // one copy has been put in: an identical segment that follows it is another segment
+                                        let lc = res_word.syllables[pos.syll_index].apply_seg_mods_to(&self.alphas, m, pos.seg_index, 1, num.position)?;
                 
                                         match lc.cmp(&0) {
                                             std::cmp::Ordering::Greater => pos.seg_index += lc.unsigned_abs() as usize,
